@@ -31,7 +31,21 @@ impl Hook {
     #[verifier::external_body]
     pub fn rewind(&self, session_id: &str, checkpoint_id: &str) -> Result<CheckpointRewindRecord, String> { unimplemented!() }
 }
-pub struct ToolRunner { pub checkpoint_hook: Option<Hook> }
+impl Clone for ToolInvocation { #[verifier::external_body] fn clone(&self) -> (r: Self) ensures r == *self { unimplemented!() } }
+pub assume_specification<T>[ <[T]>::reverse ](s: &mut [T])
+    ensures final(s)@ == old(s)@.reverse();
+pub struct Permit { pub filler: u8 }
+impl Permit { #[verifier::external_body] pub fn expect(self, m: &str) -> Permit { unimplemented!() } }
+pub struct Semaphore { pub filler: u8 }
+impl Semaphore { #[verifier::external_body] pub fn acquire(&self) -> Permit { unimplemented!() } }        // R3: `.acquire().await`
+pub struct ToolHandler { pub filler: u8 }
+pub struct ToolRegistry { pub filler: u8 }
+impl ToolRegistry { #[verifier::external_body] pub fn get(&self, name: &str) -> Option<ToolHandler> { unimplemented!() } }
+pub struct Instant { pub filler: u8 }
+impl Instant { #[verifier::external_body] pub fn now() -> Instant { unimplemented!() } #[verifier::external_body] pub fn elapsed_ms(&self) -> u64 { unimplemented!() } }
+//@@ item crates/rip-tools/src/runtime.rs struct ToolOutput dropderive=Clone
+pub struct Elapsed { pub filler: u8 }
+pub struct ToolRunner { pub checkpoint_hook: Option<Hook>, pub semaphore: Semaphore, pub registry: ToolRegistry }
 // which files an invocation can change: this contract of files_for_invocation is PROVED in unit c14_files against a defined files_of
 // (write: the path argument verbatim; apply_patch: affected_paths of the parsed patch); here it is used modularly
 pub uninterp spec fn files_of(inv: ToolInvocation) -> Option<Seq<PathBuf>>;
@@ -71,6 +85,44 @@ impl ToolRunner {
             ret@[0].kind is CheckpointRewound || ret@[0].kind is CheckpointFailed,
     //@@ end
 
+
+    // the tool handler is a `dyn Fn` in the real runner: its call sites are replaced (R11) by this stand-in, which is told what the frame list
+    // holds at that moment.  [run.*] clauses of C14: see the function below.
+    #[verifier::external_body]
+    pub fn vcall_handler(&self, handler: &ToolHandler, invocation: ToolInvocation, Ghost(frames): Ghost<Seq<Event>>) -> (r: ToolOutput)
+        requires
+            // an automatic checkpoint is taken BEFORE a file-editing tool runs: with a hook configured and files the tool can change, the
+            // frames so far hold the CheckpointCreated frame of that checkpoint
+            (self.checkpoint_hook is Some && files_of(invocation) is Some) ==> exists|i: int| 0 <= i < frames.len() && #[trigger] frames[i].kind is CheckpointCreated,      // [run.file_editing_tool_runs_only_after_its_automatic_checkpoint_was_taken]
+        ensures r.stdout@.len() + r.stderr@.len() < 0x1_0000_0000,      // ASSUMED: a tool returns fewer than 2^32 chunks
+    { unimplemented!() }
+    #[verifier::external_body]
+    pub fn vcall_handler_with_timeout(&self, timeout_ms: u64, handler: &ToolHandler, invocation: ToolInvocation, Ghost(frames): Ghost<Seq<Event>>) -> (r: Result<ToolOutput, Elapsed>)
+        requires
+            (self.checkpoint_hook is Some && files_of(invocation) is Some) ==> exists|i: int| 0 <= i < frames.len() && #[trigger] frames[i].kind is CheckpointCreated,      // [run.file_editing_tool_runs_only_after_its_automatic_checkpoint_was_taken]
+        ensures r matches Ok(o) ==> o.stdout@.len() + o.stderr@.len() < 0x1_0000_0000,
+    { unimplemented!() }
+
+    //@@ fn crates/rip-tools/src/runtime.rs ToolRunner::run rules=R3 r7v=0,1
+    //@@ rewrite tokio::time::timeout( Duration::from_millis(timeout_ms), (handler)(invocation.clone()), ) ==>> self.vcall_handler_with_timeout(timeout_ms, &handler, invocation.clone(), Ghost(events@))
+    //@@ rewrite Ok((handler)(invocation.clone()) ==>> Ok(self.vcall_handler(&handler, invocation.clone(), Ghost(events@))
+    //@@ rewrite started_at.elapsed().as_millis() as u64 ==>> started_at.elapsed_ms()
+    //@@ rewrite let handler = match self.registry.get(&invocation.name) { ==>> proof { if self.checkpoint_hook is Some && files_of(invocation) is Some { assert(events@[events@.len() - 2].kind is CheckpointCreated); } } let handler = match self.registry.get(&invocation.name) {
+    //@@ sig
+        requires *old(seq) < 0x7fff_ffff_ffff_ffff,
+        ensures
+            consecutive(ret@, *old(seq) as int, session_id@) && *final(seq) == *old(seq) + ret@.len(),      // [run.frames_numbered_consecutively_from_the_counter]
+            ret@.len() >= 2 && (ret@.last().kind is ToolEnded || ret@.last().kind is ToolFailed),      // [run.ends_with_exactly_one_terminal_frame]
+    //@@ loop 0
+        invariant consecutive(events@, *old(seq) as int, session_id@), *seq == *old(seq) + events@.len(), events@.len() >= 1,
+            events@.len() + __v0@.len() + output.stderr@.len() < 0x1_0000_0000 + 4, *old(seq) < 0x7fff_ffff_ffff_ffff,
+        decreases __v0@.len()
+    //@@ loop 1
+        invariant consecutive(events@, *old(seq) as int, session_id@), *seq == *old(seq) + events@.len(), events@.len() >= 1,
+            events@.len() + __v1@.len() < 0x2_0000_0000 + 8, *old(seq) < 0x7fff_ffff_ffff_ffff,
+        decreases __v1@.len()
+    //@@ end
+
     //@@ fn crates/rip-tools/src/runtime.rs ToolRunner::emit_checkpoint_events rules=R9
     //@@ sig
         requires *old(seq) < u64::MAX,
@@ -86,6 +138,8 @@ impl ToolRunner {
                 && (final(events)@.last().kind matches EventKind::CheckpointCreated { auto, tool_name, .. } ==> auto && tool_name is Some && tool_name->Some_0@ == invocation.name@)
                 && (final(events)@.last().kind is CheckpointCreated || final(events)@.last().kind is CheckpointFailed)),       // [auto_checkpoint.covers_exactly_the_files_the_tool_can_change]
             (self.checkpoint_hook is None || files_of(*invocation) is None) ==> (final(events)@.len() == old(events)@.len() || final(events)@.last().kind is CheckpointFailed),
+            // the result tells the caller whether the tool may run: with a hook and files the tool can change, only after the checkpoint was created
+            (ret && self.checkpoint_hook is Some && files_of(*invocation) is Some) ==> final(events)@.last().kind is CheckpointCreated,      // [auto_checkpoint.go_ahead_only_with_the_checkpoint_created]
     //@@ end
 }
 
